@@ -589,8 +589,10 @@ PLANS["C10"] = plan_vyukov(
     "each evaluation = 2-4 threads x <= 6 operations (emplace / get_or_emplace_lazy / erase / extract / try_get_value / find / find+erase(iterator)) "
     "over 2-8 keys that share buckets, on all five key/value storage specialisations, initial capacities 1/2/4 (repeated grows) and 128/256 (extension "
     "items) with colliding hashes, unique checksummed values per insertion, final iteration; judged per key by a WGL search against a sequential map; "
-    "plus single-threaded random sequences (20-60 operations incl. traversals with erase(iterator)) compared with std::map",
-    {"lockfree_reads_under_overlap": 1000, "sequential_ops": 1000})
+    "plus single-threaded random sequences (20-60 operations incl. traversals with erase(iterator)) compared with std::map; a quarter of those on the "
+    "128/256-bucket tables are crowded: 14-40 keys that all collide (for ever / up to 128 / up to 256 buckets), 80-200 operations, so that the extension "
+    "pool runs out and the table grows while its buckets carry extension items (re-created extension items in the new block)",
+    {"lockfree_reads_under_overlap": 1000, "sequential_ops": 1000, "seq_growth_with_extension_items": 200})
 PLANS["C11"] = plan_vyukov(
     "C11", r"^(iter|seq)_", 1500, 8000,
     "each evaluation = one traversing thread (begin / ++ / erase(iterator) by position mask / reset) with 1-3 threads doing try_get_value, emplace, "
